@@ -293,7 +293,7 @@ def pattern_witness(t1, t2, limit=400):
                 half_pred = CE.f2b(w, 0.5) - 1
                 odd = CE.f2b(w, float((1 << mant) + 1))
                 sign = 1 << (w - 1)
-                vals += [half_pred, odd, half_pred | sign, odd | sign, sign]
+                vals += [half_pred, odd, half_pred | sign, odd | sign, sign, CE.f2b(w, 0.5), CE.f2b(w, -0.5), CE.f2b(w, 1.5), CE.f2b(w, -2.5)]      # ... and the ties themselves
         cands.append([v & ((1 << w) - 1) for v in vals])
     n = 0
     for combo in itertools.product(*cands):
